@@ -114,7 +114,7 @@ def _task_inner(arg):
         eq_on = bool(options.uses(converter.Feature.EQUALITY_OPERATORS))
         bi_on = bool(options.uses(converter.Feature.BUILTIN_FUNCTIONS))
         case = {'cfg': cx.cfg_key(rec_, fs), 'cfg_id': ci, 'dis': [], 'npass': {}, 'off': None, 'nested': None, 'dircalls': None, 'anncalls': None,
-                'error': None, 'dyn': [], 'skip_seen': 0}
+                'error': None, 'dyn': [], 'skip_seen': 0, 'kinds': {}}
         tr = cx.trace(mod.f, options)
         case['skip_seen'] = cx._state['skip_seen']
         if tr.error is not None:
@@ -136,6 +136,7 @@ def _task_inner(arg):
             try:
                 fser = pyast.Ser(tr.final_tree)
                 ftxt = fser.text()
+                case['kinds'] = dict(fser.kinds)
                 lines.append('c04.nonative %s %s %s' % (sexp(eq_on), sexp(bi_on), ftxt))
                 lines.append('c04.regions ' + ftxt)
             except Exception as e:  # noqa
@@ -394,6 +395,7 @@ def check(run, only_corpus=None):
                  'by_kind_orig': dict.fromkeys(dyn.KINDS, 0)}
     dyn_bad = []
     ctx_matrix = set()
+    kinds = {}
     skip_seen = 0
     load_errors = 0
     for (pj, ids, _), res in zip(tasks, results):
@@ -407,6 +409,8 @@ def check(run, only_corpus=None):
             run.case(key, nontriv)
             if res['construct'] and res['kind'] == 'context':
                 ctx_matrix.add((res['construct'], res['context']))
+            for kk, nn in case.get('kinds', {}).items():
+                kinds[kk] = kinds.get(kk, 0) + nn
             if case['error']:
                 ek = case['error'].split(':')[0]
                 conv_errors[ek] = conv_errors.get(ek, 0) + 1
@@ -467,6 +471,15 @@ def check(run, only_corpus=None):
         d = dis_by_op.get(op, [])
         run.oblige('correspondence:pass:' + op, 'correspondence', not d and (npass.get(op, 0) > 0 or only_corpus is not None),
                    json.dumps(d[:2]) if d else ('%d pass inputs' % npass.get(op, 0)))
+    known_kinds = set('FunctionDef AsyncFunctionDef ClassDef Return Delete Assign AugAssign AnnAssign For AsyncFor While If With AsyncWith '
+                      'Raise Try ExceptHandler Assert Import ImportFrom Global Nonlocal Expr Pass Break Continue Name Constant Attribute '
+                      'Subscript Call keyword BoolOp UnaryOp BinOp Compare IfExp Lambda Tuple List Set Starred NamedExpr ListComp SetComp '
+                      'GeneratorExp DictComp comprehension arguments arg withitem Dict Slice JoinedStr FormattedValue Await Yield '
+                      'YieldFrom'.split())
+    unknown = sorted(k for k in kinds if k not in known_kinds)
+    run.oblige('assumption:node-kinds-covered', 'correspondence', not unknown,
+               'node kinds outside Py.Ast in final trees (serialised generically): %s' % unknown)
+    run.cov['final_tree_node_kinds'] = dict(sorted(kinds.items(), key=lambda kv: -kv[1]))
     run.oblige('assumption:no-skip-processing', 'correspondence', skip_seen == 0, 'SKIP_PROCESSING seen on %d nodes' % skip_seen)
     run.oblige('checker:noNative-on-real-output', 'checker', not off_cases,
                json.dumps(off_cases[:2])[:1500] if off_cases else '%d final trees checked' % checked_final)
